@@ -129,16 +129,19 @@ Proof. unfold J, Ex, Ri. intros -> -> ->. auto. Qed.
 (** ** unindex_rule / index_rule *)
 
 Lemma unindex_rule_facts s id rule : st_facts (unindex_rule s id rule) = st_facts s.
-Proof. unfold unindex_rule. destruct (rule_patterns rule); reflexivity. Qed.
+Proof. unfold unindex_rule. destruct (is_scheduled rule); [reflexivity|]. destruct (rule_patterns rule); reflexivity. Qed.
 
 Lemma unindex_rule_kind s id rule : st_kind (unindex_rule s id rule) = st_kind s.
-Proof. unfold unindex_rule. destruct (rule_patterns rule); reflexivity. Qed.
+Proof. unfold unindex_rule. destruct (is_scheduled rule); [reflexivity|]. destruct (rule_patterns rule); reflexivity. Qed.
 
+(** a scheduled rule was never indexed: nothing is taken out for it *)
 Lemma unindex_rule_tr s id rule π j :
   tr_has (st_pindex (unindex_rule s id rule)) π j <->
-  tr_has (st_pindex s) π j /\ ~ (j = id /\ rule_path rule = Some π).
+  tr_has (st_pindex s) π j /\ ~ (j = id /\ opath (Some rule) = Some π).
 Proof.
-  unfold unindex_rule, rule_path. destruct (rule_patterns rule) as [p|].
+  unfold unindex_rule, opath. destruct (is_scheduled rule).
+  { split; [intros H; split; [exact H|intros [_ Hp]; discriminate]|intros [H _]; exact H]. }
+  unfold rule_path. destruct (rule_patterns rule) as [p|].
   - cbn [st_pindex set_pindex]. destruct (pi_rem (st_pindex s) p id) as [n' e] eqn:E.
     cbn [fst]. apply (pi_rem_iff _ _ _ _ _ E).
   - split; [intros H; split; [exact H|intros [_ Hp]; discriminate]|intros [H _]; exact H].
@@ -218,7 +221,7 @@ Proof.
   { intros π j. subst s1. destruct oldrule as [o|] eqn:Eo.
     - rewrite unindex_rule_tr. split.
       + intros [Ht Hn]. split; [exact Ht|]. intros ->. apply Hn. split; [reflexivity|].
-        apply Hold in Ht. cbn [opath] in Ht. destruct (is_scheduled o); [discriminate|exact Ht].
+        apply Hold in Ht. exact Ht.
       + intros [Ht Hn]. split; [exact Ht|]. intros [Hj _]. contradiction.
     - split.
       + intros Ht. split; [exact Ht|]. intros ->. apply Hold in Ht. discriminate.
@@ -353,7 +356,7 @@ Proof.
     destruct (extract_rule fact false) as [[rule|]| | |]; cbn [opath] in Hold.
     - rewrite unindex_rule_tr. split.
       + intros [Ht Hn]. split; [exact Ht|]. intros ->. apply Hn. split; [reflexivity|].
-        apply Hold in Ht. destruct (is_scheduled rule); [discriminate|exact Ht].
+        apply Hold in Ht. exact Ht.
       + intros [Ht Hn]. split; [exact Ht|]. intros [Hj _]. contradiction.
     - split; [intros Ht; split; [exact Ht|]; intros ->; apply Hold in Ht; discriminate|intros [Ht _]; exact Ht].
     - split; [intros Ht; split; [exact Ht|]; intros ->; apply Hold in Ht; discriminate|intros [Ht _]; exact Ht].
@@ -1145,6 +1148,30 @@ Proof.
   rewrite !enabled_snd, !Hg. reflexivity.
 Qed.
 
+Theorem idx_lin_dispatch_agree_inv : forall s l ev now ids,
+  Pidx s -> l_state l = s -> nothing_expired l now ->
+  pi_search (st_pindex s) ev = Ok ids ->
+  rules_in_fragment s ev -> rules_index_ok s -> bodies_checked s ->
+  raw_bodies_checked s -> scheduled_have_no_when s ->
+  exists c1 ch1 c2 ch2,
+    st_find_rules s ev now = (s, Ok c1) /\
+    find_children l c1 ev now [] = (l, Ok ch1) /\
+    st_find_rules (as_linear s) ev now = (as_linear s, Ok c2) /\
+    find_children (with_state l (as_linear s)) c2 ev now [] = (with_state l (as_linear s), Ok ch2) /\
+    (forall x, In x ch1 <-> In x ch2) /\
+    forall id bss, In (id, bss) ch1 <-> dispatch_spec l s ev now id bss.
+Proof.
+  intros s l ev now ids HP Hls Hne Hs Hfrag Hidx Hchk Hraw Hsw.
+  destruct (dispatch_exact_indexed_inv s l ev now ids HP Hls Hne Hs Hfrag Hidx Hchk)
+    as (c1 & ch1 & Hf1 & Hc1 & H1).
+  destruct (dispatch_exact_linear (as_linear s) (with_state l (as_linear s)) ev now eq_refl eq_refl
+              (nothing_expired_lin l s now Hls Hne) Hfrag Hraw Hsw)
+    as (c2 & ch2 & Hf2 & Hc2 & H2).
+  exists c1, ch1, c2, ch2. repeat (split; [assumption|]). split; [|exact H1].
+  intros [id bss]. rewrite H1, H2. unfold dispatch_spec. cbn [as_linear st_facts].
+  rewrite (rule_enabled_lin l s id now Hls Hne). reflexivity.
+Qed.
+
 Theorem idx_lin_dispatch_agree : idx_lin_dispatch_agree_statement.
 Proof.
   intros hooks fail ops l ev now ids s Hls Hne Hs Hfrag Hidx Hchk Hraw Hsw.
@@ -1458,26 +1485,95 @@ Lemma direct_when_matched_by_index_only_counterexample :
 Proof. vm_compute. repeat split; reflexivity. Qed.
 
 (** A stored rule with a "schedule" member AND a `when` map (accepted by
-    [st_add]; with an empty schedule string also by [rule_from_map]) is never
-    indexed, so the indexed state never dispatches it, while the linear state
-    does.  With a non-empty schedule the linear state's RuleFromMap check
-    fails and the candidate is skipped (before the repair of D53 the whole
-    event failed, blocking every other rule).  (Hence
-    [scheduled_have_no_when] in the linear theorems.) *)
-Definition cx2_body (sched : string) : json :=
-  JObj [("action", JObj [("code", JStr "x")]); ("schedule", JStr sched);
+    [st_add]; with a null or empty schedule also by [rule_from_map], which
+    takes it for an ordinary event rule).  Before the repair of D59/D66 the
+    indexed state looked at the PRESENCE of the member: such a rule was never
+    indexed and never dispatched, while the linear state dispatched it.  Now a
+    null or empty schedule is no schedule ([is_scheduled]) and both kinds
+    dispatch the rule.  With a real schedule the indexed state does not index
+    the rule and the linear state's RuleFromMap check refuses the candidate,
+    which is skipped (before the repair of D53 the whole event failed): not
+    dispatched by either.  ([scheduled_have_no_when] in the linear theorems
+    keeps such rules out because nothing is assumed about their patterns.) *)
+Definition cx2_body_of (sched : json) : json :=
+  JObj [("action", JObj [("code", JStr "x")]); ("schedule", sched);
         ("when", JObj [("pattern", JObj [("a", JStr "1")])])].
-Definition cx2_fact (sched : string) : json := JObj [("rule", cx2_body sched)].
+Definition cx2_body (sched : string) : json := cx2_body_of (JStr sched).
+Definition cx2_fact_of (sched : json) : json := JObj [("rule", cx2_body_of sched)].
+Definition cx2_fact (sched : string) : json := cx2_fact_of (JStr sched).
 Definition cx2_ev : json := JObj [("a", JStr "1")].
 
-Lemma scheduled_with_when_linear_only_counterexample :
+Example empty_schedule_dispatched_by_both_example :
   st_facts (cx_state Indexed "r2" (cx2_fact "")) = st_facts (cx_state Linear "r2" (cx2_fact "")) /\
   rule_from_map (cx2_body "") = Ok (cx2_body "") /\
-  cx_dispatch Indexed "r2" (cx2_fact "") cx2_ev = (Ok [], Some (Ok [])) /\
+  is_scheduled (cx2_body "") = false /\
+  pi_search (st_pindex (cx_state Indexed "r2" (cx2_fact ""))) cx2_ev = Ok ["r2"] /\
+  cx_dispatch Indexed "r2" (cx2_fact "") cx2_ev = (Ok [("r2", cx2_body "")], Some (Ok [("r2", [[]])])) /\
   cx_dispatch Linear "r2" (cx2_fact "") cx2_ev = (Ok [("r2", cx2_body "")], Some (Ok [("r2", [[]])])) /\
+  (* a null schedule: the same *)
+  rule_from_map (cx2_body_of JNull) = Ok (cx2_body_of JNull) /\
+  cx_dispatch Indexed "r4" (cx2_fact_of JNull) cx2_ev = (Ok [("r4", cx2_body_of JNull)], Some (Ok [("r4", [[]])])) /\
+  cx_dispatch Linear "r4" (cx2_fact_of JNull) cx2_ev = (Ok [("r4", cx2_body_of JNull)], Some (Ok [("r4", [[]])])) /\
+  (* a real schedule: dispatched by neither *)
+  is_scheduled (cx2_body "* * * * *") = true /\
   cx_dispatch Indexed "r3" (cx2_fact "* * * * *") cx2_ev = (Ok [], Some (Ok [])) /\
   cx_dispatch Linear "r3" (cx2_fact "* * * * *") cx2_ev = (Ok [], Some (Ok [])).
 Proof. vm_compute. repeat split; reflexivity. Qed.
+
+(** The second half of D66: a scheduled rule is not in the index, so nothing
+    is looked for there when it leaves.  Its `when` may be something the index
+    cannot sort (the array of two maps): the rule is stored (AddFact does not
+    validate), replaced and removed like anything else. *)
+Definition cx3_fact : json :=
+  JObj [("rule", JObj [("action", JObj [("code", JStr "1")]); ("schedule", JStr "+1h");
+                       ("when", JObj [("pattern", JObj [("a", JArr [JObj []; JObj []])])])])].
+
+Example scheduled_unsortable_when_removable_example :
+  snd (pi_add pn_empty (JObj [("a", JArr [JObj []; JObj []])]) "r") <> None /\
+  snd (pi_rem pn_empty (JObj [("a", JArr [JObj []; JObj []])]) "r") <> None /\
+  st_facts (cx_state Indexed "r" cx3_fact) = [("r", cx3_fact)] /\
+  snd (st_add (cx_state Indexed "r" cx3_fact) "r" cx3_fact 101 "fresh" None) = Ok "r" /\
+  snd (st_Rem (cx_state Indexed "r" cx3_fact) "r" 101) = Ok true /\
+  st_facts (fst (st_Rem (cx_state Indexed "r" cx3_fact) "r" 101)) = [] /\
+  st_pindex (fst (st_Rem (cx_state Indexed "r" cx3_fact) "r" 101)) = st_pindex (cx_state Indexed "r" cx3_fact).
+Proof. vm_compute. repeat split; try reflexivity; discriminate. Qed.
+
+(** ** The repair of D59/D66: a rule without a schedule is indexed when it is added *)
+
+Lemma no_schedule_not_scheduled rule : no_schedule rule <-> is_scheduled rule = false.
+Proof.
+  unfold no_schedule, is_scheduled. split.
+  - intros [H|[H|H]]; rewrite H; reflexivity.
+  - destruct (jget "schedule" rule) as [[| | |sch| |]|]; try discriminate; auto.
+    destruct (String.eqb_spec sch "") as [->|]; [auto|discriminate].
+Qed.
+
+Theorem unscheduled_rule_indexed_on_add : unscheduled_rule_indexed_on_add_statement.
+Proof.
+  intros hooks fail ops given x now fresh aux s' id s HA.
+  pose proof (pidx_reachable hooks fail ops) as HP. fold s in HP.
+  assert (Hwf : st_wf s) by (apply (idx_sup_reachable hooks fail ops)).
+  pose proof (Pidx_st_add s given x now fresh aux HP) as HP'. rewrite HA in HP'. cbn [fst] in HP'.
+  destruct (add_visible s given x now fresh aux s' id Hwf HA) as (_ & fact & Hprep & Hl & _).
+  exists fact. split; [exact Hprep|]. split; [exact Hl|].
+  intros rule He Hns. apply no_schedule_not_scheduled in Hns.
+  destruct HP' as (Hk' & HEx' & HRi').
+  assert (He0 : extract_rule fact false = Ok (Some rule)) by (apply extract_rule_req; exact He).
+  split; [|split].
+  - destruct (HRi' id fact rule Hl He0 Hns) as (p & π & Hp & Hπ).
+    exists p, π. split; [exact Hp|]. split; [exact Hπ|].
+    apply HEx'. exists fact, rule, p. repeat split; assumption.
+  - intros p ev ids b Hp Hs Hwp Hwe Hnp Hao Hlay.
+    apply (candidates_complete s' ev ids id fact rule p b); assumption.
+  - intros l' ev now' ids Hls Hne Hs Hfrag Hidx Hchk Hraw Hsw.
+    destruct (idx_lin_dispatch_agree_inv s' l' ev now' ids (conj Hk' (conj HEx' HRi')) Hls Hne Hs
+                Hfrag Hidx Hchk Hraw Hsw) as (c1 & ch1 & c2 & ch2 & Hf1 & Hc1 & Hf2 & Hc2 & Hag & H1).
+    exists c1, ch1, c2, ch2. repeat (split; [assumption|]).
+    intros bss. rewrite H1. unfold dispatch_spec. split.
+    + intros (fact' & rule' & p & Hl' & He' & _ & H). rewrite Hl in Hl'. injection Hl' as <-.
+      rewrite He in He'. injection He' as <-. exists p. exact H.
+    + intros (p & H). exists fact, rule, p. split; [exact Hl|]. split; [exact He|]. split; [exact Hns|exact H].
+Qed.
 
 (** * Part 8: reload, and the semantic reading of the characterisation *)
 
@@ -1682,6 +1778,7 @@ Print Assumptions dispatch_exact_indexed_inv.
 Print Assumptions dispatch_exact_indexed.
 Print Assumptions dispatch_exact_linear.
 Print Assumptions idx_lin_dispatch_agree.
+Print Assumptions unscheduled_rule_indexed_on_add.
 Print Assumptions removed_rule_never_dispatched.
 Print Assumptions overwritten_rule_never_dispatched.
 Print Assumptions overwritten_by_plain_fact_never_dispatched.
@@ -1690,4 +1787,5 @@ Print Assumptions dispatch_spec_semantic.
 Print Assumptions dispatch_hyps_b_sound.
 Print Assumptions dispatch_example.
 Print Assumptions direct_when_matched_by_index_only_counterexample.
-Print Assumptions scheduled_with_when_linear_only_counterexample.
+Print Assumptions empty_schedule_dispatched_by_both_example.
+Print Assumptions scheduled_unsortable_when_removable_example.
